@@ -245,7 +245,7 @@ func c04Case(c *core.Ctx, r *rand.Rand, base *c04Base, class string, shapes []le
 }
 
 func C04(c *core.Ctx) {
-	c.Rule = "signed TCB Info documents built around one platform: ordered level lists (0..4 levels; each level = SGX components all <= platform or one component one above at index 0/7/15, PCE SVN <= or one above, TDX components <= or one above at index 0/1/2/15, each of the 7 statuses), TEE_TCB_SVN[1] zero and non-zero, TDX module identities absent / present / duplicated / wrong id with level lists and statuses, identity fields (FMSPC incl. upper case, PCE-ID, MRSIGNERSEAM, SEAM attributes and mask) matching or not; exhaustive over <= 2 levels in the thorough tier, sampled in the quick tier; each through verify.RawTdxQuote with collateral and then verify.SupportedTcbLevelsFromCollateral. non-trivial = at least one level; distinct = distinct (platform, document)"
+	c.Rule = "signed TCB Info documents built around one platform: ordered level lists (0..4 levels; each level = SGX components all <= platform or one component one above at index 0/7/15, PCE SVN <= or one above, TDX components <= or one above at index 0/1/2/15, each of the 7 statuses, or the tcbStatus member absent), TEE_TCB_SVN[1] zero and non-zero, TDX module identities absent / present / duplicated / wrong id with level lists and statuses, identity fields (FMSPC incl. upper case, PCE-ID, MRSIGNERSEAM, SEAM attributes and mask) matching or not; exhaustive over <= 2 levels in the thorough tier, sampled in the quick tier; each through verify.RawTdxQuote with collateral and then verify.SupportedTcbLevelsFromCollateral. non-trivial = at least one level; distinct = distinct (platform, document)"
 	r := c.Rng
 	sgxOpts := []int{-1, 0, 7, 15}
 	tdxOpts := []int{-1, 0, 1, 2, 15}
@@ -306,8 +306,8 @@ func C04(c *core.Ctx) {
 		c04Case(c, r, b, "no-matching-level", []levelShape{{sgxFail: 0, tdxFail: -1, status: "UpToDate"}}, nil, "")
 		c04Case(c, r, b, "no-levels", nil, nil, "")
 		want := fmt.Sprintf("TDX_%02x", b.fields.TeeTcbSvn[1])
-		for _, ps := range allStatuses {
-			for _, ms := range allStatuses {
+		for _, ps := range append(append([]string{}, allStatuses...), world.AbsentStatus) {
+			for _, ms := range append(append([]string{}, allStatuses...), world.AbsentStatus) {
 				c04Case(c, r, b, "platform-x-module-status", []levelShape{{sgxFail: -1, tdxFail: -1, status: ps}},
 					[]modShape{{want, []modLevel{{uint32(b.fields.TeeTcbSvn[0]), ms}}}}, "")
 			}
